@@ -517,3 +517,85 @@ treat_block_atoms = FunctionContract(
             ("atom[0] = reference", "pass")],
 )
 CONTRACTS.append(treat_block_atoms)
+
+
+# ------------------------------------------------------------------ _treat_link_interaction_atoms: atoms an interaction line defines
+LKey2, LVal = TKey('AttrKey'), TKey('AttrVal')
+LAttr = TMap(LKey2, LVal)
+LinkTok = TTuple(Tok, LAttr)
+
+
+def setup_tlia(cx):
+    from pyvc.builtins import setitem
+    eng = cx.eng
+    atoms = cx.val('atoms', TSeq(LinkTok))
+    cx.spec_env['ATOMS'] = atoms
+    LINK = cx.heap('LINK', cx.box('LINK', TMap(Tok, LAttr)))   # the atoms of the link with their attributes
+    APPLY = cx.val('APPLY', LAttr)                              # context._apply_to_all_nodes
+    cx.spec_env['APPLY'] = APPLY
+    # _treat_atom_prefix by its contract (proved above for keys with and without an order attribute): the key the atom gets and
+    # its attributes (with atomname and order), as functions of the reference and the attributes written; IOError for a
+    # malformed key or a prefix that contradicts the order
+    pref = cx.uf('pref', [Tok, LAttr], Tok)
+    tattrs = cx.uf('tattrs', [Tok, LAttr], LAttr)
+    ok = cx.uf('prefix_ok', [Tok, LAttr], TBool)
+    r, a = z3.Const('r', Tok.sort()), z3.Const('a', LAttr.sort())
+    cx.assume(z3.ForAll([r, a], LAttr.inv(tattrs(r, a))))
+
+    def tap(e, reference, attributes):
+        re_, ae = to_z3(reference, Tok), to_z3(attributes, LAttr)
+        e.maybe_raise(ok(re_, ae), 'OSError')
+        return (SV(Tok, pref(re_, ae)), Box(LAttr, tattrs(re_, ae)))
+    cx.spec_env['_treat_atom_prefix'] = Builtin(tap, '_treat_atom_prefix')
+
+    def add_node(e, key, **kw):
+        if list(kw) != ['**']:
+            raise EngineError('add_node(%s)' % list(kw))
+        e.maybe_raise(True, 'KeyError')
+        setitem(e, LINK, key, kw['**'])
+    context = Obj('Link', nodes=LINK, _apply_to_all_nodes=Box(LAttr, APPLY.e), add_node=Builtin(add_node, 'link.add_node'),
+                  __contains__=Builtin(lambda e, k: wrap(TBool, TMap(Tok, LAttr).has(LINK.e, to_z3(k, Tok))), 'in link'))
+    return dict(atoms=atoms, context=context, section='bonds')
+
+
+SPEC_TLIA = {
+    # what is written for the k-th atom, on top of the attributes the link gives all its atoms
+    'merged_is': "lambda M, k: forall(lambda key: (key in M) == (key in APPLY or key in ATOMS[k][1]), AttrKey) and "
+                 "forall(lambda key: implies(key in M, M[key] == (ATOMS[k][1][key] if key in ATOMS[k][1] else APPLY[key])), AttrKey)",
+}
+TLIA_INV = [
+    "len(g_M) == {I} and len(all_references) == {I}",
+    "forall(lambda k: implies(0 <= k and k < {I}, merged_is(g_M[k], k) and all_references[k] == pref(ATOMS[k][0], g_M[k])))",
+    # every atom named so far is an atom of the link with (at least) the attributes the line gives it
+    "forall(lambda k, key: implies(0 <= k and k < {I} and key in tattrs(ATOMS[k][0], g_M[k]), all_references[k] in LINK and "
+    "   key in LINK[all_references[k]] and LINK[all_references[k]][key] == tattrs(ATOMS[k][0], g_M[k])[key]), TInt, AttrKey)",
+    "forall(lambda k: implies(0 <= k and k < {I}, all_references[k] in LINK))",
+    # what the link already said about its atoms stays
+    "forall(lambda p, key: implies(p in old(LINK) and key in old(LINK)[p], p in LINK and key in LINK[p] and "
+    "   LINK[p][key] == old(LINK)[p][key]), Tok, AttrKey)",
+]
+treat_link_atoms = FunctionContract(
+    F, '_treat_link_interaction_atoms', 'C13', setup=setup_tlia, spec_defs=SPEC_TLIA, spec_env=dict(Tok=Tok, AttrKey=LKey2, AttrVal=LVal),
+    result_ty=TSeq(Tok), locals=dict(all_references=TSeq(Tok), g_M=TSeq(LAttr), intermediate=LAttr, g_bad_prefix=TBool, g_conflict=TBool),
+    ghost_at={'entry': "g_M = []\ng_bad_prefix = False\ng_conflict = False",
+              'after:stmt:attributes = intermediate': "g_M.append(dict(intermediate))\ng_bad_prefix = not prefix_ok(reference, intermediate)",
+              # the conflict that is reported: the line gives an attribute the link's atom already has with another value
+              'before:stmt:raise IOError(msg.format(key, reference':
+                  "g_conflict = True\n"
+                  "prove(prefixed_reference in LINK and key in attributes and key in LINK[prefixed_reference] and "
+                  "      LINK[prefixed_reference][key] != attributes[key], 'reported-conflict-is-real')"},
+    ensures=[x.format(I='len(ATOMS)').replace('all_references', 'result') for x in TLIA_INV],
+    # IOError: the key is malformed / contradicts its order, or an attribute conflicts with what the link already says about
+    # that atom
+    raises={'OSError': ["g_bad_prefix or g_conflict"]},
+    modifies=['LINK'],
+    loops={
+        'L1': LoopSpec(inv=[x.format(I='_i') for x in TLIA_INV], modifies=['LINK', 'all_references', 'g_M']),
+        'L1.1': LoopSpec(inv=["forall(lambda key: implies(key in attributes and posof(attributes, key) < _i and key in context_atom, "
+                              "   context_atom[key] == attributes[key]), AttrKey)"]),
+    },
+    canary=[("if key in context_atom and value != context_atom[key]:", "if key in context_atom and value == context_atom[key]:"),
+            ("context_atom.update(attributes)", "pass"),
+            ("intermediate.update(attributes)", "pass")],
+)
+CONTRACTS.append(treat_link_atoms)
